@@ -7,8 +7,10 @@ import (
 	"fmt"
 	"github.com/go-netty/go-netty/codec/format"
 	"github.com/go-netty/go-netty/codec/frame"
+	"github.com/go-netty/go-netty/codec/xhttp"
 	"io"
 	"net"
+	"net/http"
 	"strings"
 	"sync"
 	"sync/atomic"
@@ -332,6 +334,23 @@ func runC07(c *core.Ctx) {
 					continue
 				}
 				c07PacketAfterPanic(c, id, mode, val, inner)
+			}
+		}
+	}
+	// an http.Handler behind the shipped HTTP server codec panics while the response cannot be flushed (two faults at once)
+	hx := 0
+	for _, mode := range []mon.Mode{mon.Sync, mon.Blocking} {
+		for val := 0; val < 4; val++ {
+			for _, wrote := range []bool{false, true} {
+				hx++
+				if !c.Mine(hx) {
+					continue
+				}
+				id := fmt.Sprintf("http-handler-panic-failing-flush/%s/v%d/wrote%v", mode, val, wrote)
+				if !c.Case(id) {
+					continue
+				}
+				c07HTTPDoubleFault(c, id, mode, val, wrote)
 			}
 		}
 	}
@@ -864,6 +883,58 @@ func c07PacketAfterPanic(c *core.Ctx, id string, mode mon.Mode, valKind int, inn
 	}
 	if fmt.Sprint(got) != fmt.Sprint(packets) {
 		c.Violation("C07:channel-unusable-after-consumed-panic", id, fmt.Sprintf("after a consumed read-event panic the following packets are not delivered as they were received: got %q, want %q %s", got, packets, where), nil)
+	}
+}
+
+// c07HTTPDoubleFault: the handler of the shipped HTTP server codec panics, and finishing the response fails as well (the
+// transport refuses every write). The handler's panic is what the exception handlers get - once, the value itself.
+func c07HTTPDoubleFault(c *core.Ctx, id string, mode mon.Mode, valKind int, wrote bool) {
+	val, _ := c07PanicValue(valKind)
+	exc := &excProbe{name: "first", swallow: true}
+	h := http.HandlerFunc(func(w http.ResponseWriter, r *http.Request) {
+		if wrote {
+			w.Header().Set("Content-Length", "5")
+			w.Write([]byte("hello"))
+		}
+		if val == nil {
+			defer func() {
+				r := recover()
+				c07LastRuntimeErr.Store(&r)
+				panic(r)
+			}()
+			var m map[string]int
+			m["boom"] = 1
+		}
+		panic(val)
+	})
+	tr := mon.NewRecTransport()
+	tr.AddFault(mon.Fault{Kind: mon.OpWrite, K: 0, Err: errors.New("c07 peer gone")})
+	tr.AddFault(mon.Fault{Kind: mon.OpWritev, K: 0, Err: errors.New("c07 peer gone")})
+	tr.FeedBytes([]byte("GET /x HTTP/1.1\r\nHost: c07.test\r\n\r\n"))
+	rig := mon.NewRig(mon.RigOpts{Mode: mode, Queue: 4, NoPark: true, Tr: tr, Handlers: []netty.Handler{exc, xhttp.ServerCodec(), xhttp.Handler(h)}})
+	defer rig.Dispose()
+	for dl := time.Now().Add(5 * time.Second); time.Now().Before(dl); {
+		exc.mu.Lock()
+		n := len(exc.seen)
+		exc.mu.Unlock()
+		if n > 0 {
+			break
+		}
+		time.Sleep(100 * time.Microsecond)
+	}
+	time.Sleep(2 * time.Millisecond)
+	c.Count("http_double_fault_cells", 1)
+	c.Sig("http-double-fault", mode, valKind, wrote)
+	exc.mu.Lock()
+	seen := append([]error(nil), exc.seen...)
+	exc.mu.Unlock()
+	where := fmt.Sprintf("[http.Handler panicking with %T behind ServerCodec, every transport write failing, mode=%s, response written=%v]", val, mode, wrote)
+	if len(seen) == 0 {
+		c.Violation("C07:handler-panic-not-routed", id, "the http.Handler's panic was not delivered as an exception "+where, nil)
+		return
+	}
+	if !c07SameExc(seen[0], val, valKind) {
+		c.Violation("C07:exception-value", id, fmt.Sprintf("the exception handlers received %T %v instead of the handler's panic value %s", seen[0], seen[0], where), nil)
 	}
 }
 
